@@ -226,15 +226,18 @@ pub fn cmd_rt(seed: u64, n: usize, out: &mut dyn Write) {
     }
 
     // ---------------- (b) the C driver ----------------
-    let template_repo = std::fs::read_to_string("/repo/lang/driver/infrastructure/driver-template.c").unwrap_or_default();
+    // the template the driver crate embeds comes from the tree the harness is built against (= $VERIF_REPO in a normal run;
+    // the C20 mutation script hands in mutated COPIES of the C files through $VERIF_REPO while the crates stay those of /repo:
+    // then the real function and the mirror of the template under test differ and BOTH drivers are built and run)
+    let template_repo = std::fs::read_to_string(repo.join("lang/driver/infrastructure/driver-template.c")).unwrap_or_default();
     let template_used = std::fs::read_to_string(&template_path).unwrap();
-    let use_real = repo == Path::new("/repo");
     let gen_dir = dir.join("gen");
     std::fs::create_dir_all(&gen_dir).unwrap();
     let back = std::env::current_dir().ok();
     std::env::set_current_dir(&gen_dir).unwrap_or_else(|e| die(&format!("chdir: {e}")));
     let max_n = 7usize;
     let mut driver_src: Vec<PathBuf> = vec![];
+    let mut mirror_src: Vec<Option<PathBuf>> = vec![];
     for nn in 0..=max_n {
         // the real function: writes target_scc/infrastructure/driver<n>.c below the current directory
         let real = std::panic::catch_unwind(|| driver::generate_c_driver(nn, None)).ok()
@@ -243,16 +246,24 @@ pub fn cmd_rt(seed: u64, n: usize, out: &mut dyn Write) {
         let same = real.as_deref() == Some(mirror.as_str());
         writeln!(out, "(case {k} (driver-gen {nn}) (same {same}))").unwrap();
         k += 1;
-        let text = if use_real { real.unwrap_or_else(|| die("generate_c_driver failed")) } else { instantiate(&template_used, nn) };
+        let mirror_used = instantiate(&template_used, nn);
+        let text = real.clone().unwrap_or_else(|| die("generate_c_driver failed"));
         let p = dir.join(format!("driver{nn}.c"));
-        std::fs::write(&p, text).unwrap();
+        std::fs::write(&p, &text).unwrap();
         driver_src.push(p);
+        // a second driver from the template file under test when it is not what the real function produced
+        if mirror_used != text {
+            let pm = dir.join(format!("driverm{nn}.c"));
+            std::fs::write(&pm, mirror_used).unwrap();
+            mirror_src.push(Some(pm));
+        } else { mirror_src.push(None); }
     }
     if let Some(b) = back { let _ = std::env::set_current_dir(b); }
     for nn in 0..=max_n {
         let stub = dir.join(format!("stub{nn}.c"));
         std::fs::write(&stub, stub_c(nn)).unwrap();
         gcc(&dir, &format!("drv{nn}"), &[], &[&driver_src[nn], &io_c, &stub]);
+        if let Some(pm) = &mirror_src[nn] { gcc(&dir, &format!("drvm{nn}"), &[], &[pm, &io_c, &stub]); }
     }
     let ood: [&str; 14] = ["+17", "  42", "12abc", "", "abc", "9223372036854775808", "-9223372036854775809",
         "99999999999999999999999", "00012", "-0", "- 5", "+-5", "\t-7", "1e3"];
@@ -268,18 +279,26 @@ pub fn cmd_rt(seed: u64, n: usize, out: &mut dyn Write) {
         for a in 0..count {
             if use_ood && rng.chance(1, 2) { args.push(rng.pick(&ood).to_string()); continue; }
             let v = match (j + a) % 11 { 0 => i64::MIN, 1 => i64::MAX, _ => if rng.chance(2, 3) { rng.i64_interesting() } else { rng.next() as i64 } };
-            args.push(format!("{v}"));
+            // decimal numerals may be zero-padded (`printf %05d`): still decimal, never octal
+            if (j + a) % 5 == 3 {
+                let small = [8i64, 9, 10, 12, 64, 100, 777, 4096][(j + a) % 8] * if a % 2 == 0 { 1 } else { -1 };
+                let digits = format!("{}", small.unsigned_abs());
+                args.push(format!("{}{}{}", if small < 0 { "-" } else { "" }, "0".repeat(1 + (j % 4)), digits));
+            } else if (j + a) % 7 == 5 { args.push(format!("{}{}{}", if v < 0 { "-" } else { "" }, "0".repeat(1 + a % 3), v.unsigned_abs())); }
+            else { args.push(format!("{v}")); }
         }
         let ret: i64 = match j % 9 { 0 => 0, 1 => 255, 2 => 256, 3 => -1, 4 => (1i64 << 32) + 7, 5 => i64::MIN, 6 => i64::MAX,
             _ => if rng.chance(1, 2) { rng.i64_interesting() } else { rng.below(1000) as i64 - 300 } };
-        let r = run(&dir.join(format!("drv{nn}")), &args, &[], &[("RT_RET", format!("{ret}"))]);
-        let res = match r.code {
-            Some(c) => format!("(run {} {c})", enc(&r.stdout)),
-            None => format!("(signal {})", enc(&r.stdout)),
-        };
         let argl: Vec<String> = args.iter().map(|a| enc(a.as_bytes())).collect();
-        writeln!(out, "(case {k} (driver {nn} {ret} ({})) {res})", argl.join(" ")).unwrap();
-        k += 1;
+        for bin in std::iter::once(format!("drv{nn}")).chain(mirror_src[nn].iter().map(|_| format!("drvm{nn}"))) {
+            let r = run(&dir.join(&bin), &args, &[], &[("RT_RET", format!("{ret}"))]);
+            let res = match r.code {
+                Some(c) => format!("(run {} {c})", enc(&r.stdout)),
+                None => format!("(signal {})", enc(&r.stdout)),
+            };
+            writeln!(out, "(case {k} (driver {nn} {ret} ({})) {res})", argl.join(" ")).unwrap();
+            k += 1;
+        }
     }
 
     // ---------------- (c) move_arguments ----------------
